@@ -145,6 +145,11 @@ def procedures(ch):
             for v in (0x00, 0x41, 0x81, 0xC0, 0xC1, 0xFF):
                 b = bytearray(st); b[k] = v
                 datas.append(("setbyte", bytes(b)))
+    # a BMC that keeps answering with full 16-byte chunks (record data of 1 KiB and more): the 6-bit list index is
+    # exhausted after 64 chunks; discovery must stop there, with a value or an error, not go round again
+    filler = bytes.fromhex("c00301410180") * 200
+    for n in (1008, 1024, 1040, 1100, 1200):
+        datas.append(("full-chunks-for-ever", filler[:n]))
     scns = [{"bmc": conn.default_bmc(seed=6, records=d.hex()), "timeout_ms": 40, "steps": [{"op": "ciphersuites"}]} for _, d in datas]
     outs = conn.run_scenarios(scns)
     lines = []
@@ -158,6 +163,11 @@ def procedures(ch):
         res = out["steps"][0]
         desc = {"kind": "procedure", "procedure": "ciphersuites", "family": kind, "len": len(d)}
         ch.note_case("procedure-ciphersuites-" + kind, d.hex())
+        if res.get("runaway") or len(res["sent"]) > 65:
+            ch.violation(desc, {"scenario": scn, "requests": len(res["sent"]), "record_data_len": len(d),
+                                "what": "cipher-suite discovery does not stop: %d requests and going (a BMC can make every session establishment "
+                                        "with default options hang)" % len(res["sent"])})
+            continue
         if res.get("panic") or res["err"] == "panic":
             ch.violation(desc, {"scenario": scn, "panic": res.get("panic"), "record_data": d.hex(),
                                 "what": "cipher-suite discovery panicked on record data a BMC can send before any authentication"})
